@@ -475,6 +475,21 @@ def rebind_program(r):
     return t
 
 
+def alias_program(r):
+    """One value extended / sliced / updated several times by sibling alternatives while earlier results are still alive: a result that
+    shares memory with its operand shows as a WRONG VALUE SEQUENCE (no histories needed).  Meant for array inputs of length 3, 5, 6, 7
+    (spare capacity after a decoder-style build) and for slices of them."""
+    a = lambda: r.choice([".", ".[:2]", ".[1:]", ".[:1]", "$x", "$x[:1]", "$x[1:2]", ".a", ".a[:2]", "[.[]?]", "(.[:2] + [0])"])
+    b = lambda: r.choice(["[4]", "[5]", "[\"a\"]", ".", ".[:1]", "[[1]]", "[null]", "$x"])
+    return ". as $x | " + r.choice([
+        "[%s + (%s, %s)]" % (a(), b(), b()), "(%s + %s), ." % (a(), b()), "[%s + (%s, %s)], $x" % (a(), b(), b()), "[%s | (. + %s, . + %s)]" % (a(), b(), b()), "[%s + %s, %s + %s], ." % (a(), b(), a(), b()),
+        "[(.[0:2], .[1:3]) + %s], ." % b(), "[limit(2; repeat(%s + %s))]" % (a(), b()), "%s as $p | ($p + %s), ., ($p + %s), ., $p" % (a(), b(), b()), "[%s as $p | $p + (%s, %s) | length], ." % (a(), b(), b()),
+        "reduce (1, 2) as $i (%s; . + [$i]) | (. + [3], . + [4]), $x" % a(), "[foreach (1, 2, 3) as $i (%s; . + [$i]; .)], ." % a(), "[%s | (.[0] = 9, .[1] = 8, .)], ." % a(), "[(%s | .[0] = 9), (%s | .[0])]" % (a(), a()),
+        "[%s + %s | (., .[:2] + [7], .)]" % (a(), b()), "([%s, %s] | add), ." % (a(), b()), "[%s | ., (. + %s), ., (. - [1]), .]" % (a(), b()), "[[%s, %s] | (.[0] + .[1]), (.[1] + .[0]), .]" % (a(), a()),
+        "{p: (%s + %s), q: (%s + %s), r: .}" % (a(), b(), a(), b()), "[.[:2] as $p | .[2:] as $q | ($p + $q), ($q + $p), $p, $q]", "[%s | sort, reverse, (. + %s), .]" % (a(), b()), "[path(..)] as $ps | [%s + %s], ($ps | length)" % (a(), b()),
+    ])
+
+
 def join_program(r):
     """Control constructs whose branches END in a one-instruction value (variable load, constant, identity) and whose join point
     is followed by an instruction that replaces or drops the top of the stack - the shapes on which a peephole rewrite must know
